@@ -261,8 +261,9 @@ class Rewriter:
                 raise Unsupported("unsupported construct: Pin<Box<..>> shape in %s" % self.what)
             t = t[:mm.start()] + t[mm.start(1):j] + t[k2 + 1:]
             n += 1
-        t, k = re.subn(r"\bBox::pin\(", "Box::new(", t)
-        n += k
+        if getattr(self, "boxpin", False):  # opt-in (`:: boxpin=1`): some units model `Box::pin` in their prelude
+            t, k = re.subn(r"\bBox::pin\(", "Box::new(", t)
+            n += k
         # Pin::new(e) -> e
         while True:
             m = mask(t)
@@ -1016,6 +1017,7 @@ def emit_fn(u: Unit, fpath, impl_pat, name, spec: FnSpec, reach: bool, mutate):
     rw = Rewriter(text, what)
     rw.unpinned = set(x.strip() for x in spec.opts.get("unpinned", "").split(",") if x.strip())
     rw.proj_enums = proj_types_of(src)
+    rw.boxpin = spec.opts.get("boxpin") == "1"
     try:
         t = rw.common()
     except Unsupported as e:
